@@ -534,6 +534,7 @@ def check_C07(ctx):
     lib = ctx.snap.lib()
     tab = ctx.snap.dump()['tld']
     labels = gens.tld_labels(tab, ctx.rnd, full=ctx.thorough())
+    labels += sub(ctx, gens.row_bitflips([bytes.fromhex(n) for n, l, t in tab]), 2)      # rows with one bit of one octet flipped (home-made case folding, 7-bit compares)
     desc = lambda ln, a, b: 'is_tld / e-mail TLD class differs from the model (C07_lookup_whole_label: first row ci-EQUAL to the whole label of the table dumped from this build): implementation %s, model %s' % (a, b)
     corr(ctx, 'is_tld(labels)', ['T %s' % hx(l) for l in labels], lambda ln, o: o, nontrivial=lambda ln, o: o != '-26' or len(ln) > 8,
          describe=desc, note='every table row in 4 case patterns, every proper prefix, one-character extensions, substitutions, neighbour concatenations, random labels')
@@ -720,6 +721,7 @@ def check_C11(ctx):
     # near misses of EVERY row: one- and two-character extensions, a hyphenated extension, every row minus its last character, upper-cased extensions
     labels += [n + b'x' for n in expect] + [n + b'xy' for n in expect] + [n + b'-shop' for n in list(expect)[::3]] + [n[:-1] for n in expect if len(n) > 1] + [(n + b'a').upper() for n in list(expect)[::2]]
     labels += [b'x' + n for n in list(expect)[::2]] + [n + n for n in list(expect)[::5]]
+    labels += gens.row_bitflips(list(expect))        # one bit of one octet of every row flipped: found only if the comparison folds more than letter case
     tl = ['T %s' % hx(l) for l in labels]
     corr(ctx, 'lookup(all rows + near misses)', tl, lambda ln, o: o, exhaustive=True, nontrivial=lambda ln, o: True,
          describe=lambda ln, a, b: 'is_tld differs from the lookup model over the dumped table: %s vs %s' % (a, b))
@@ -851,6 +853,10 @@ def check_C13(ctx):
     for nme, l, t in ctx.snap.dump()['tld']:
         byclass13.setdefault(t, bytes.fromhex(nme))
     pool2 += [b'a@b.' + v for v in byclass13.values() if b'a@b.' + v not in pool2]
+    # inputs that drive library parsers to their limits (a digit run beyond long / unsigned long, a number only a wider integer holds): whatever
+    # state they leave behind in libc (errno, a conversion state) must not reach the next validation
+    pool2 += [b'a@[9223372036854775808]', b'a@[1.2.3.99999999999999999999]', b'a@[IPv6:::1.2.3.18446744073709551616]', b'a@[4294967296.1.1.1]', b'a@[IPv6:' + b'f' * 40 + b'::1]',
+              b'a@b.c' + b'9' * 30, 'a@\u0660\u0661.com'.encode()]
     seqs = [(b'a@b.' + x, b'a@b.' + y) for x, y in rel] + [(b'a@b.' + y, b'a@b.' + x) for x, y in rel] + [(x, y) for x in pool2 for y in pool2]
     orc2 = vlib.idn_oracle(gens.domains_of([a for p2 in seqs for a in p2]))
     for x, y in seqs:
@@ -1119,6 +1125,15 @@ def check_C19(ctx):
             if ctx.rnd.random() < 0.1: seq += [ctx.rnd.choice(['r0', 'r3', 'r1']), 's']
         seq.append('f')
         runs.append('A ' + ' '.join(seq))
+    # two IDN failures with different codes, separated by a refused / repeated eav_setup and by validations that do not fail in the IDN library:
+    # the message reported for the second must be the second's
+    cs = codes[:: max(1, len(codes) // 6)][:6]
+    for c1 in cs:
+        for c2 in cs:
+            if c1 == c2: continue
+            for mid in (['r9', 's'], ['r9', 's', 'x'], ['r3', 's'], ['r9', 's', gens.enc_e(b'a@b.org', orc), 'x'], ['r0', 's', gens.enc_e(b'bad', orc), 'r3', 's'], [gens.enc_e(b'a@b.org', orc)], []):
+                a1, a2 = pool[1], pool[5]
+                runs.append('A ' + ' '.join(['i', 's', gens.enc_e(a1, orc, fault=c1, buf=0), 'x'] + mid + [gens.enc_e(a2, orc, fault=c2, buf=1), 'x', gens.enc_e(a1, orc), 'x', 'f']))
     corr(ctx, 'fault runs', runs, lambda ln, o: o, describe=desc, nontrivial=lambda ln, o: ':2:' in o)
     # implementation-only relations: rejected with code 2 + library message, no flag, balance 1 live record, nothing live after free
     c_r, _ = vlib.run_both(lib, ctx.snap, runs)
@@ -1166,7 +1181,7 @@ def check_C17(ctx):
     step_proof(ctx)
     n = 5 if ctx.thorough() else 4
     alphaL = gens.LOCAL_ALPHA + [b'~', b'{', b'^']
-    L = gens.local_class(n, alpha=alphaL) + sub(ctx, gens.local_sweep(), 3) + gens.local_random(ctx.rnd, 20000)
+    L = gens.local_class(n, alpha=alphaL) + sub(ctx, gens.local_sweep(), 3) + gens.local_random(ctx.rnd, 20000) + gens.low_byte_twin_lines()
     Dd = gens.dom_class(5) + gens.dom_boundary(chars=(b'_', b'x', b'-'))
     D = gens.dom_lines(Dd) + gens.dom_lines([d.replace(b'_', b'a') for d in Dd])
     addrs = gens.addr_structured() + [b'a#b@c.org', b'"a#b"@c.org', b'a@b_c.org', b'a_b@c_d.e_f', b'"a b"@c.org', b'a~b.{c}@d.com'] + gens.addr_class(3, alpha=[b'a', b'_', b'#', b'.', b'@', b'"', b' '])
@@ -1491,6 +1506,11 @@ def cli_files(rnd, n, big):
     if not big: cands = cands[::3] + [u for u in cands if u[0] in (0xe0, 0xed, 0xf0, 0xf4) and u[1] in (0x80, 0x8f, 0x90, 0x9f, 0xa0, 0xbf)]
     files.append(b''.join(u + b'\n' for u in cands))
     files.append(b''.join(b'a' + u + b'b@x.org\n' for u in cands))
+    # what only the very first octets of a file can be: byte-order marks, a shebang, a NUL — the first line is a line like every other
+    for mark in (b'\xef\xbb\xbf', b'\xff\xfe', b'\xfe\xff', b'#!', b'\x00', b'\xef\xbb', b'\xef\xbb\xbf\xef\xbb\xbf', b' \xef\xbb\xbf'):
+        for first in (b'', b'a@b.com', b'#comment', b' a@b.com ', b'bad', 'я@почта.рф'.encode(), b'a@xn--a'):
+            files.append(mark + first + b'\n' + b'a@b.org\n'); files.append(mark + first)
+            files.append(b'a@b.org\n' + mark + first + b'\n')
     files += [b'', b'\n', b'\n\n\n', b' \n', b'a@b.com', b'a@b.com\r', b'a@b.com\r\r\n', b'#\n', b'#', b' ', b'\x00\n', b'a@b.com\n\n \n#c\n good@xn--p1ai.com \n']
     return files
 
